@@ -148,10 +148,11 @@ impl<T: BitRead> PackedRead for T {
         lower_bound: i64,
         upper_bound: i64,
     ) -> Result<i64, Error> {
-        let range = upper_bound - lower_bound;
-        if range > 0 {
-            Ok(lower_bound
-                + self.read_non_negative_binary_integer(None, Some(range as u64))? as i64)
+        if upper_bound > lower_bound {
+            // the range might exceed i64::MAX (for example i64::MIN..i64::MAX)
+            let range = upper_bound.wrapping_sub(lower_bound) as u64;
+            let offset = self.read_non_negative_binary_integer(None, Some(range))?;
+            Ok(lower_bound.wrapping_add(offset as i64))
         } else {
             Ok(lower_bound)
         }
@@ -175,7 +176,8 @@ impl<T: BitRead> PackedRead for T {
     #[inline]
     fn read_semi_constrained_whole_number(&mut self, lower_bound: i64) -> Result<i64, Error> {
         let n = self.read_non_negative_binary_integer(None, None)?;
-        Ok((n as i64) + lower_bound)
+        i64::try_from(i128::from(n) + i128::from(lower_bound))
+            .map_err(|_| ErrorKind::ValueExceedsMaxInt.into())
     }
 
     /// ITU-T X.691 | ISO/IEC 8825-2:2015, chapter 11.8
@@ -473,17 +475,16 @@ impl<T: BitWrite> PackedWrite for T {
         upper_bound: i64,
         value: i64,
     ) -> Result<(), Error> {
-        let range = upper_bound - lower_bound;
-        if range > 0 {
-            if value < lower_bound || value > upper_bound {
-                Err(ErrorKind::ValueNotInRange(value, lower_bound, upper_bound).into())
-            } else {
-                self.write_non_negative_binary_integer(
-                    None,
-                    Some(range as u64),
-                    (value - lower_bound) as u64,
-                )
-            }
+        if value < lower_bound || value > upper_bound {
+            Err(ErrorKind::ValueNotInRange(value, lower_bound, upper_bound).into())
+        } else if upper_bound > lower_bound {
+            // the range might exceed i64::MAX (for example i64::MIN..i64::MAX)
+            let range = upper_bound.wrapping_sub(lower_bound) as u64;
+            self.write_non_negative_binary_integer(
+                None,
+                Some(range),
+                value.wrapping_sub(lower_bound) as u64,
+            )
         } else {
             Ok(())
         }
@@ -514,7 +515,12 @@ impl<T: BitWrite> PackedWrite for T {
         if value < lower_bound {
             Err(ErrorKind::ValueNotInRange(value, lower_bound, i64::MAX).into())
         } else {
-            self.write_non_negative_binary_integer(None, None, (value - lower_bound) as u64)
+            // the offset might exceed i64::MAX (for example lower_bound = i64::MIN)
+            self.write_non_negative_binary_integer(
+                None,
+                None,
+                value.wrapping_sub(lower_bound) as u64,
+            )
         }
     }
 
